@@ -43,6 +43,12 @@ type traceEv struct {
 	fn            string
 	key           int
 	sync          bool
+	spawn         []spawnTake
+}
+
+type spawnTake struct {
+	thread int
+	take   *Term
 }
 
 type violation struct {
@@ -190,6 +196,8 @@ type opSpec struct {
 	cellLabel []string
 	write     bool
 	syncCell  bool
+	traced    bool
+	spawn     *[]spawnTake
 	accCells  []string
 	accNames  []string
 	accOwn    []bool
@@ -220,6 +228,9 @@ func (w *W) op(t *Thread, key int, pg *Term, o opSpec) (Value, *Term) {
 		}
 		if nv != nil {
 			st.res = merge(exec, nv, st.res)
+		}
+		if o.traced && !exec.IsFalse() && !t.alone {
+			w.trace = append(w.trace, traceEv{thread: t.id, round: t.round, exec: exec, pos: w.pos(o.pos), kind: o.kind, key: key, sync: true, fn: w.curFnName()})
 		}
 		st.done = pg
 		return st.res, pg
@@ -275,8 +286,12 @@ func (w *W) op(t *Thread, key int, pg *Term, o opSpec) (Value, *Term) {
 	if nv != nil {
 		st.res = merge(exec, nv, st.res)
 	}
-	if o.sync && !exec.IsFalse() {
-		w.trace = append(w.trace, traceEv{thread: t.id, round: t.round, exec: exec, pos: w.pos(o.pos), kind: o.kind, key: key, sync: true, fn: w.curFnName()})
+	if o.sync && !exec.IsFalse() && !t.alone {
+		ev := traceEv{thread: t.id, round: t.round, exec: exec, pos: w.pos(o.pos), kind: o.kind, key: key, sync: true, fn: w.curFnName()}
+		if o.spawn != nil {
+			ev.spawn = *o.spawn
+		}
+		w.trace = append(w.trace, ev)
 	}
 	t.running = And(t.running, Or(Not(at), exec))
 	st.done = Or(st.done, exec)
